@@ -89,12 +89,19 @@ static CO_ERR COTPdoEventWrite(struct CO_OBJ_T *obj, struct CO_NODE_T *node, voi
     tmr = &pdo->Node->Tmr;
     if (pdo->EvTmr >= 0) {
         tid = COTmrDelete(tmr, pdo->EvTmr);
+        pdo->EvTmr = -1;
         if (tid < 0) {
             return (CO_ERR_TYPE_WR);
         }
     }
     if (pdo->InTmr >= 0) {
         tid = COTmrDelete(tmr, pdo->InTmr);
+        pdo->InTmr = -1;
+        /* the inhibit time is stopped: the TPDO is not blocked anymore,
+         * a transmission waiting for the end of the inhibit time is
+         * sent below
+         */
+        pdo->Flags &= ~CO_TPDO_FLG__I_;
         if (tid < 0) {
             return (CO_ERR_TYPE_WR);
         }
@@ -116,6 +123,12 @@ static CO_ERR COTPdoEventWrite(struct CO_OBJ_T *obj, struct CO_NODE_T *node, voi
                                         (void*)pdo);
             }
         }
+    }
+
+    /* send transmission, which was waiting for the inhibit time end */
+    if ((pdo->Flags & CO_TPDO_FLG___E) != 0) {
+        pdo->Flags &= ~CO_TPDO_FLG___E;
+        COTPdoTx(pdo);
     }
     return (CO_ERR_NONE);
 }
